@@ -173,6 +173,24 @@ def judge(ctx, case):
                 fail(ctx, case, 'iso0:pin_not_recovered_from_clear_block:after_a_neighbouring_card', {'pan2': pan2, 'changed_position': p,
                                                                                                      'got': pbr.pin, 'want': pin})
                 return
+        # the card number is a plain attribute of the block (the PVV mix-in reads it at call time): point the block that was
+        # already used at another card and build again
+        pan3 = pan[:-6] + str((int(pan[-6]) + 7) % 10) + pan[-5:]
+        try:
+            pb.card_number = pan3
+            settable = True
+        except AttributeError:
+            settable = False
+        if settable:
+            ok, clear3 = step(ctx, case, 'iso0.to_bytes', pb.to_bytes)
+            if not ok:
+                return
+            ctx.count('blocks rebuilt after the card number of a used object was replaced')
+            if clear3 != ref.iso0_clear(pin, pan3):
+                fail(ctx, case, 'iso0:clear_block_differs:after_card_number_replaced_on_the_object',
+                     {'pan3': pan3, 'got': bytes(clear3).hex(), 'want': ref.iso0_clear(pin, pan3).hex()})
+                return
+            pb.card_number = pan
         pin2 = pin[:-1] + str((int(pin[-1]) + 3) % 10)
         ok, pbn = step(ctx, case, 'construct', cls, pin2, card_number=pan)
         if ok:
